@@ -39,6 +39,15 @@ INFO = {
              "sequence across orders.",
         note="Trusts the gate-based scheduler of the fake daemon to realise the completion order, and TLC; bounded inventories + random larger ones.",
         ref="6/C04"),
+    "C02": dict(
+        text="TLC checks the container-selection loop (label map derivation, per-operator comparison with early exit, missing "
+             "label = empty string, fully anchored regexes from an explicit regex algebra) against the declarative Selected() for "
+             "every bounded inventory x selector x time range; the same cases and random larger ones run through Engine.Eval over "
+             "the Docker-backed storage with a fake daemon, and TLC validates on the recorded trace that exactly the selected "
+             "containers are opened, with since/until = whole-second floor of the window (30 s look-back for instant log queries), "
+             "stdout+stderr+timestamps, and that every returned line carries exactly the label set of its container of origin.",
+        note="Trusts the fake Docker API client and TLC; regex semantics limited to the algebra in Regex.tla; sanitised-name collisions left open.",
+        ref="6/C02"),
 }
 
 NOT_YET = "no check registered yet in this revision (machinery under construction; see DESIGN.md section 6 for the planned model)"
